@@ -32,8 +32,9 @@ func kvMiddleware[V any](
 	succ, err := n.FindSuccessor(id)
 	switch err {
 	case nil:
-	case chord.ErrNodeGone:
-		// if the remote node happens to be leaving, the caller needs to retry
+	case chord.ErrNodeGone, chord.ErrNodeNoSuccessor:
+		// if the remote node happens to be leaving, or a node on the path is still joining
+		// and has not learned its successors yet, the caller needs to retry
 		return zeroV, chord.ErrKVStaleOwnership
 	default:
 		return zeroV, err
